@@ -127,7 +127,8 @@ def check_ops(case):
     # --- plus_identity
     if all_id and not hc:
         ranges = [list(range(a, b + 1)) for a in range(L) for b in range(a, L)] + [[1, 0]]
-        for (alpha, beta), sel in itertools.product([(0.3, -2.0), (1.0, 0.5), (1.5j, 1.0 - 0.5j), (0., 2.)], ranges):
+        coefs = [(0.3, -2.0), (1.0, 0.5), (1.5j, 1.0 - 0.5j), (0., 2.)]  # every range with one pair, sites=[0] with all
+        for k, ((alpha, beta), sel) in enumerate([(coefs[k % 4], sel) for k, sel in enumerate(ranges)] + [(c, [0]) for c in coefs[1:]]):
             P = rec.guard('plus_identity', H.plus_identity, alpha, beta, sel)
             if P is not None and not close(D.mpo_dense(P), alpha * np.eye(len(Hd)) + beta * Hd):
                 rec('plus_identity:dense:N=%d' % len(sel), 'plus_identity(%r, %r, sites=%r) is not alpha + beta H' % (alpha, beta, sel))
@@ -178,17 +179,12 @@ def _check_termlist(H, Hd, spec, sites, basis):
         return rec
     if not close(termlist_dense(sites, tl), Hd):
         rec('to_TermList:dense', 'sum of the returned terms (literal Kronecker products) differs from the operator')
-    simple = not fermi or all(len(t) <= 2 for t in spec['terms'])  # (strings 'JW' in the middle are all fermionic)
-    if simple:
-        tl2 = rec.guard('to_TermList', H.to_TermList, basis)
-        if tl2 is not None:
-            if not close(termlist_dense(sites, tl2, jw=True), Hd):
-                rec('to_TermList:dense:default-ignore', 'sum of the returned terms differs from the operator')
-            with warnings.catch_warnings():
-                warnings.simplefilter('ignore')
-                H2 = rec.guard('from_term_list:roundtrip', lambda: MPOGraph.from_term_list(tl2, sites, 'finite', unit_cell_width=L).build_MPO())
-            if H2 is not None and not close(D.mpo_dense(H2), Hd):
-                rec('from_term_list:roundtrip', 'from_term_list(to_TermList(H)) differs from H')
+    if not fermi:  # (for fermions the default `ignore` drops the strings: the documented pitfall, not checked)
+        with warnings.catch_warnings():
+            warnings.simplefilter('ignore')
+            H2 = rec.guard('from_term_list:roundtrip', lambda: MPOGraph.from_term_list(tl, sites, 'finite', unit_cell_width=L).build_MPO())
+        if H2 is not None and not close(D.mpo_dense(H2), Hd):
+            rec('from_term_list:roundtrip', 'from_term_list(to_TermList(H)) differs from H')
     by_start = {}
     for t, c in zip(spec['terms'], U.spec_coefs(spec)):
         i = min(j for _, j in t)
@@ -214,9 +210,21 @@ def _check_termlist(H, Hd, spec, sites, basis):
 # ------------------------------------------------------------------------------------------------ pairs
 
 def _window(spec, H):
-    """Number of sites on which the operators of (in)finite specifications are compared (the documented default
-    window of is_equal / overlap for infinite MPOs)."""
-    return spec['L'] if spec['bc'] == 'finite' else spec['L'] + 2 * H.max_range
+    """Number of sites on which the operators of (in)finite specifications are compared: the documented default
+    window of is_equal / overlap for infinite MPOs (an unknown or infinite range counts as L)."""
+    if spec['bc'] == 'finite':
+        return spec['L']
+    return spec['L'] + 2 * (spec['L'] if H.max_range is None or H.max_range == np.inf else H.max_range)
+
+
+def _second_order(rec, key, S, dense, ts=(0.04j, 0.02j)):
+    for approx in ('I', 'II'):
+        errs = []
+        for t in ts:
+            UU = rec.guard('%s:make_U_%s' % (key, approx), S.make_U, t, approx)
+            errs.append(np.nan if UU is None else float(np.abs(D.mpo_dense(UU) - scipy.linalg.expm(t * dense)).max()))
+        if UU is not None and (not np.isfinite(errs).all() or (errs[1] > 1e-11 and errs[0] / errs[1] < 3.0)):
+            rec('%s:make_U_%s:order' % (key, approx), 'errors %r at t=%r: not second order in t' % (errs, ts))
 
 
 def check_pair(case):
@@ -226,50 +234,52 @@ def check_pair(case):
     H1, H2 = rec.guard('build', U.build, s1), rec.guard('build', U.build, s2)
     if H1 is None or H2 is None:
         return rec
-    fin = s1['bc'] == 'finite'
-    n = _window(s1, H1) if fin else max(_window(s1, H1), _window(s2, H2))
+    fin, default = s1['bc'] == 'finite', bool(case.get('default_window'))
+    n = max(_window(s1, H1), _window(s2, H2))
     d1, d2 = U.spec_dense(s1, n), U.spec_dense(s2, n)
     dense = (lambda H: D.mpo_window_dense(H, 0, n))
     # --- sum
-    for name, (A, B), ref in (('H1+H2', (H1, H2), d1 + d2), ('H2+H1', (H2, H1), d1 + d2), ('(H1+H2)+H1', (H1, H2), 2 * d1 + d2)):
-        S = rec.guard('add', lambda: (A + B) + A if name.startswith('(') else A + B)
+    same_flag = bool(s1.get('plus_hc')) == bool(s2.get('plus_hc'))  # (documented requirement of the sum)
+    for name, ref in (('H1+H2', d1 + d2), ('H2+H1', d1 + d2), ('(H1+H2)+H1', 2 * d1 + d2)) if same_flag and not default else ():
+        S = rec.guard('add', {'H1+H2': lambda: H1 + H2, 'H2+H1': lambda: H2 + H1, '(H1+H2)+H1': lambda: (H1 + H2) + H1}[name])
         if S is None or rec.guard('add:test_sanity', S.test_sanity) is not None:
             continue
         if not close(dense(S), ref):
             rec('add:dense:%s' % ('nested' if name.startswith('(') else 'all_id=%s+%s' % (s1.get('all_id', True), s2.get('all_id', True))),
                 '%s differs from the sum of the dense operators by %.3g' % (name, np.abs(dense(S) - ref).max()))
-        if S.max_range is not None and S.max_range < max(U.spec_range(s1), U.spec_range(s2)):
+        if S.max_range is None or S.max_range < max(U.spec_range(s1), U.spec_range(s2)):
             rec('add:max_range', 'max_range of the sum is %r' % S.max_range)
-    S = rec.guard('add', lambda: H1 + H2)
-    if S is not None and fin and not (s1.get('charged') or s1.get('plus_hc')):
-        rng = np.random.default_rng(case['seed'])
-        v = U.sector_vectors(s1['chain'], s1['L'], rng, 1)[0]
-        e = rec.guard('add:expectation_value', S.expectation_value, U.mps_from_vector(s1['chain'], s1['L'], v))
-        if e is not None and not close(e, np.vdot(v, (d1 + d2) @ v)):
-            rec('add:expectation_value', 'expectation value of H1+H2: %r, dense %r' % (e, np.vdot(v, (d1 + d2) @ v)))
-        if s1.get('all_id', True) and s2.get('all_id', True):
-            for approx in ('I', 'II'):
-                errs = []
-                for t in (0.04j, 0.02j):
-                    UU = rec.guard('add:make_U_' + approx, S.make_U, t, approx)
-                    errs.append(np.nan if UU is None else float(np.abs(D.mpo_dense(UU) - scipy.linalg.expm(t * (d1 + d2))).max()))
-                if UU is not None and (not np.isfinite(errs).all() or (errs[1] > 1e-11 and errs[0] / errs[1] < 3.0)):
-                    rec('add:make_U_%s:order' % approx, 'propagator of H1+H2: errors %r at t, t/2' % (errs,))
+        if name == 'H1+H2':  # the sum (with IdR = -1) as input of further operations
+            Sd = rec.guard('add:dagger', S.dagger)
+            if Sd is not None and not close(dense(Sd), ref.conj().T):
+                rec('add:dagger', 'dagger() of H1+H2 is not the conjugate transpose')
+            if rec.guard('add:sort_legcharges', S.sort_legcharges) is None and not close(dense(S), ref):
+                rec('add:sort_legcharges', 'H1+H2 changed by sort_legcharges')
+        if name == 'H1+H2' and fin and not (s1.get('charged') or s1.get('plus_hc')):
+            v = U.sector_vectors(s1['chain'], s1['L'], np.random.default_rng(case['seed']), 1)[0]
+            e = rec.guard('add:expectation_value', S.expectation_value, U.mps_from_vector(s1['chain'], s1['L'], v))
+            if e is not None and not close(e, np.vdot(v, ref @ v)):
+                rec('add:expectation_value', 'expectation value of H1+H2: %r, dense %r' % (e, np.vdot(v, ref @ v)))
+            if s1.get('all_id', True) and s2.get('all_id', True) and case.get('propagators'):
+                _second_order(rec, 'add', S, ref)
     # --- overlap, distance, equality
-    kw = {} if fin else dict(understood_infinite=True, num_sites=n)
+    kw = {} if fin else dict(understood_infinite=True) if default else dict(understood_infinite=True, num_sites=n)
+    tag = ':default-num_sites' if default else ''
     for name, (A, B), (a, b) in (('H1,H2', (H1, H2), (d1, d2)), ('H2,H1', (H2, H1), (d2, d1)), ('H1,H1', (H1, H1), (d1, d1))):
-        ov = rec.guard('overlap', A.overlap, B, **kw)
+        if default and name == 'H1,H1':
+            a = b = U.spec_dense(s1, _window(s1, H1))
+        ov = rec.guard('overlap' + tag, A.overlap, B, **kw)
         if ov is not None and not close(ov, np.vdot(a, b), 1e-9):
-            rec('overlap:value', 'overlap(%s)=%r, dense tr(A^+ B)=%r' % (name, ov, np.vdot(a, b)))
-        dist = rec.guard('distance', A.distance, B, **kw)
+            rec('overlap%s:value' % tag, 'overlap(%s)=%r, dense tr(A^+ B)=%r on %d sites' % (name, ov, np.vdot(a, b), n))
+        dist = rec.guard('distance' + tag, A.distance, B, **kw) if ov is not None and name != 'H2,H1' else None
         if dist is not None and not (close(dist, fro2(a - b), 1e-9) or close(dist, np.sqrt(fro2(a - b)), 1e-9)):
-            rec('distance:value', 'distance(%s)=%r, dense |A-B|_F^2=%r' % (name, dist, fro2(a - b)))
+            rec('distance%s:value' % tag, 'distance(%s)=%r, dense |A-B|_F^2=%r' % (name, dist, fro2(a - b)))
     for (A, sa, B, sb) in ((H1, s1, H2, s2), (H2, s2, H1, s1)):
         m = _window(sa, A)
         a, b = (d1, d2) if A is H1 else (d2, d1)
-        if not fin and m != n:
+        if m != n:
             a, b = U.spec_dense(sa, m), U.spec_dense(sb, m)
-        for eps in (1e-10, 1e-3):
+        for eps in (1e-10, 1e-3) if A is H1 else (1e-10,):
             truth = decided(fro2(a - b), fro2(a) + fro2(b), eps)
             got = rec.guard('is_equal', A.is_equal, B, eps)
             if got is not None and truth is not None and bool(got) != truth:
@@ -291,6 +301,7 @@ def check_partition(case):
     n = _window(spec, H)
     d, dx = U.spec_dense(spec, n), U.spec_dense(rest, n) + U.spec_dense(other, n)
     false = decided(fro2(d - dx), fro2(d) + fro2(dx), 1e-10)
+    rel = fro2(d - dx) / (fro2(d) + fro2(dx))
     for first in (True, False):
         S, X = (rec.guard('add', lambda a=a: Hr + a if first else a + Hr) for a in (H1, Hx))
         if S is None or X is None:
@@ -299,6 +310,10 @@ def check_partition(case):
             got = rec.guard('is_equal', A.is_equal, B)
             if got is not None and truth is not None and bool(got) != truth:
                 rec('is_equal:sum:false-%s' % ('negative' if truth else 'positive'), 'is_equal(%s)=%s for term %r' % (name, got, spec['terms'][k]))
+        for eps, truth in ((rel * 60, True), (rel / 60, False)):  # the documented (relative) threshold
+            got = rec.guard('is_equal', H.is_equal, X, eps)
+            if got is not None and bool(got) != truth:
+                rec('is_equal:threshold', 'is_equal(eps=%.3g)=%s although |A-B|^2/(|A|^2+|B|^2)=%.3g' % (eps, got, rel))
     return rec
 
 
@@ -326,7 +341,7 @@ def build_operator(desc):
     return H, ref
 
 
-TRUNC = {'none': dict(chi_max=100, svd_min=1e-14), 'chi2': dict(chi_max=2), 'chi3': dict(chi_max=3, svd_min=1e-12),
+TRUNC = {'none': dict(chi_max=100, svd_min=1e-14), 'default': dict(), 'chi2': dict(chi_max=2), 'chi3': dict(chi_max=3, svd_min=1e-12),
          'svd_min': dict(chi_max=100, svd_min=0.1), 'trunc_cut': dict(chi_max=100, trunc_cut=0.15)}
 
 
@@ -335,7 +350,7 @@ def check_apply(case):
     rec = Rec()
     desc, method, tname = case['op'], case['method'], case['trunc']
     chain, L = (desc['chain'], desc['L']) if 'chain' in desc else (desc['spec']['chain'], desc['spec']['L'])
-    built = rec.guard('build', build_operator, desc)
+    built = rec.guard('build:%s%s' % (desc['kind'], ':coeff[0]=0' if desc['kind'] == 'wavepacket' and not any(desc['coeff'][0]) else ''), build_operator, desc)
     if built is None:
         return rec
     H, Od = built
@@ -344,7 +359,8 @@ def check_apply(case):
     nv = np.linalg.norm(v)
     if nv < 1e-9:
         return rec  # (the operator annihilates the state: the normalised result is undefined)
-    key = 'apply:%s' % method
+    form = name.split(':')[-1]
+    key = 'apply:%s%s%s' % (method, '' if form in ('B', 'product') else ':psi.form=' + form, ':trunc_params-without-chi_max' if tname == 'default' else '')
     if method == 'naive':
         if rec.guard('apply_naively', H.apply_naively, psi) is None:
             if not close(D.mps_dense(psi, form=None), v, 1e-9):
@@ -362,10 +378,10 @@ def check_apply(case):
     phi = D.mps_dense(psi)
     if not np.all(np.isfinite(phi)) or not np.isfinite(err.eps):
         return rec + [(key + ':not-finite', 'non-finite numbers in the state or the truncation error')]
-    chi_max = TRUNC[tname]['chi_max']
+    chi_max = TRUNC[tname].get('chi_max', 100)
     if max(psi.chi) > chi_max:
         rec(key + ':chi_max', 'bond dimensions %r exceed chi_max=%d' % (psi.chi, chi_max))
-    exact_expected = tname == 'none'
+    exact_expected = tname in ('none', 'default')
     if rec.guard(key + ':test_sanity', psi.test_sanity) is None and exact_expected and float(np.max(psi.norm_test())) > 1e-8:
         rec(key + ':not-canonical', 'norm_test()=%r after apply' % (psi.norm_test(),))
     fid = abs(np.vdot(phi, v)) ** 2 / (np.vdot(phi, phi).real * nv ** 2)
@@ -399,7 +415,7 @@ def check_inf(case):
     if H is None:
         return rec
     reach = U.spec_range(spec)
-    n = L * (-(-(L + reach) // L))  # a multiple of L which contains every term starting in the first unit cell
+    n = L + max(reach, 1)  # a window which contains every term starting in the first unit cell
     ref = U.spec_dense(spec, n)
     if not close(D.mpo_window_dense(H, 0, n), ref):
         return rec + [('denote:infinite:from_term_list', 'window of %d sites differs from the Kronecker sum of the translated terms' % n)]
@@ -447,14 +463,13 @@ def check_inf(case):
                     if pre is not None and not close(pre, expect):
                         rec('prefactor:infinite:%s' % ('present' if abs(expect) > 1e-12 else 'absent'), 'prefactor(%d, %r)=%r, dense %r' % (i, ops, pre, expect))
     # --- in-place transformations on fresh copies
-    psi = U.infinite_state(chain, L, rng)
-    m = L + reach
-    e_ref = D.window_expval(D.imps_window(psi, 0, m), _density_operator(spec, L, m)) / L
+    Lc = max(L, 2)
+    psi = U.infinite_state(chain, Lc, rng)
+    e_ref = D.window_expval(D.imps_window(psi, 0, Lc + reach), _density_operator(spec, Lc, Lc + reach)) / Lc
     for name, fct, args in (('sort_legcharges', 'sort_legcharges', ()), ('enlarge_mps_unit_cell', 'enlarge_mps_unit_cell', (2,)), ('group_sites', 'group_sites', (2,))):
-        Hx, n2 = U.build(spec), n
+        Hx, n2 = U.build(spec), n + n % 2
         if name == 'group_sites' and L % 2:
             Hx.enlarge_mps_unit_cell(2)
-            n2 = 2 * n
         if rec.guard(name, getattr(Hx, fct), *args) is not None or rec.guard(name + ':test_sanity', Hx.test_sanity) is not None:
             continue
         if name == 'group_sites':
@@ -481,4 +496,155 @@ def check_inf(case):
             UU, Ufin = rec.guard('make_U_%s:infinite' % approx, H.make_U, 0.03 + 0.05j, approx), Hfin.make_U(0.03 + 0.05j, approx)
             if UU is not None and rec.guard('make_U:test_sanity', UU.test_sanity) is None and not close(D.mpo_window_dense(UU, 0, n), D.mpo_dense(Ufin), 1e-9):
                 rec('make_U_%s:infinite:window' % approx, 'U_%s of the infinite MPO restricted to %d sites differs from U_%s of the open chain' % (approx, n, approx))
+    return rec
+
+
+# ------------------------------------------------------------------------------------------------ MPOs from W tensors
+
+def random_W(case):
+    """Seeded W tensors in upper triangular form [[1, C, D], [0, A, B], [0, 0, 1]] with `chi` middle states; returns
+    (dense W[wL, wR, p, p*] per site, grids of operator names for from_grids or None)."""
+    chain, L, chi = case['chain'], case['L'], case['chi']
+    rng = np.random.default_rng([case['seed'], case['variant'], L, chi])
+    site = U.site_of(chain)
+    d, n = site.dim, chi + 2
+    Ws, grids = [], []
+    for _ in range(L):
+        if chain == 'S:None':
+            W = np.zeros((n, n, d, d), complex)
+            W[0, 0] = W[-1, -1] = np.eye(d)
+            for a in range(n - 1):
+                for b in range(max(a, 1), n):
+                    W[a, b] = (0.25 if 0 < a and b < n - 1 else 1.) * (rng.standard_normal((d, d)) + 1j * rng.standard_normal((d, d)))
+            grid = None
+        else:  # middle state 1 carries the charge of Sp, middle state 2 is neutral
+            c = lambda: float(np.round(rng.uniform(0.3, 1.2), 3))  # noqa: E731
+            grid = [[None] * n for _ in range(n)]
+            grid[0][0], grid[-1][-1], grid[0][-1] = 'Id', 'Id', [('Sz', c()), ('Id', c())]
+            grid[0][1], grid[1][1], grid[1][-1] = [('Sp', c())], [('Sz', 0.25 * c()), ('Id', 0.25 * c())], [('Sm', c())]
+            if chi == 2:
+                grid[0][2], grid[2][2], grid[2][-1] = [('Sz', c())], [('Id', 0.25 * c())], [('Sz', c()), ('Id', c())]
+                grid[1][2], grid[2][1] = [('Sm', 0.25 * c())], [('Sp', 0.25 * c())]
+            W = np.zeros((n, n, d, d), complex)
+            for a, b in itertools.product(range(n), repeat=2):
+                if grid[a][b] is not None:
+                    W[a, b] = sum(x * D.op_dense(site, op) for op, x in ([(grid[a][b], 1.)] if isinstance(grid[a][b], str) else grid[a][b]))
+        Ws.append(W)
+        grids.append(grid)
+    return Ws, (grids if chain != 'S:None' else None)
+
+
+def contract_W(Ws, n):
+    """Operator on `n` sites: product of the W (periodically repeated) from the first row to the last column."""
+    cur = Ws[0][0].transpose(1, 2, 0)
+    for i in range(1, n):
+        cur = np.einsum('abw,wvcd->acbdv', cur, Ws[i % len(Ws)])
+        cur = cur.reshape(cur.shape[0] * cur.shape[1], cur.shape[2] * cur.shape[3], cur.shape[4])
+    return cur[:, :, -1]
+
+
+def transfer_density(Ws, psi, tol=1e-12, nmax=400):
+    """Energy density of an infinite MPO (first row -> last column) in an infinite canonical MPS by summing up
+    site by site: E(n) = value of all terms inside n sites; density = (E(n+Lc) - E(n)) / Lc for large n."""
+    Lc = int(np.lcm(len(Ws), psi.L))
+    S = psi.get_SL(0)
+    LP = np.zeros((len(S), Ws[0].shape[0], len(S)), complex)
+    LP[:, 0, :] = np.diag(S ** 2)
+    Es, dens = [], []
+    for i in range(nmax * Lc):
+        B = psi.get_B(i, 'B').transpose(['vL', 'p', 'vR']).to_ndarray()
+        LP = np.einsum('awb,bpc,wvqp,aqd->dvc', LP, B, Ws[i % len(Ws)], B.conj())
+        Es.append(np.einsum('ava->v', LP)[-1])
+        if (i + 1) % Lc == 0 and len(Es) > Lc:
+            dens.append((Es[-1] - Es[-1 - Lc]) / Lc)
+            if len(dens) > 2 and abs(dens[-1] - dens[-2]) < tol and abs(dens[-2] - dens[-3]) < tol:
+                return dens[-1]
+    raise RuntimeError('reference energy density not converged')
+
+
+def check_wflat(case):
+    """MPOs given directly by W tensors (`from_Wflat` / `from_grids`), unknown `max_range`, with identity markers on
+    all bonds or only at the boundaries."""
+    from tenpy.networks.mpo import MPO
+    rec = Rec()
+    chain, L, chi, bc = case['chain'], case['L'], case['chi'], case['bc']
+    fin, all_marks = bc == 'finite', case['markers'] == 'all'
+    site = U.site_of(chain)
+    sites = [site] * L
+    Ws, grids = random_W(case)
+    n = L if fin else L + 3
+    ref = contract_W(Ws, n)
+
+    def make(Ws=Ws, grids=grids):
+        if grids is not None:
+            IdL, IdR = (0, -1) if all_marks else ([0] + [None] * L, [None] * L + [-1])
+            return MPO.from_grids(sites, grids, bc, IdL, IdR, max_range=None, mps_unit_cell_width=L)
+        flat = [W.transpose(2, 3, 0, 1) for W in Ws]
+        if fin:
+            flat[0], flat[-1] = flat[0][:, :, :1, :], flat[-1][:, :, :, -1:]
+            IdL = [0] * L + [None] if all_marks else [0] + [None] * L
+            IdR = [None] + [chi + 1] * (L - 1) + [0] if all_marks else [None] * L + [0]
+        else:
+            IdL, IdR = 0, chi + 1
+        return MPO.from_Wflat(sites, flat, bc, IdL=IdL, IdR=IdR, max_range=None, unit_cell_width=L)
+
+    H = rec.guard('from_grids' if grids else 'from_Wflat', make)
+    if H is None:
+        return rec
+    if not close(D.mpo_window_dense(H, 0, n), ref):
+        return rec + [('denote:%s' % ('from_grids' if grids else 'from_Wflat'), 'dense MPO differs from the product of the given W')]
+    rng = np.random.default_rng(case['seed'])
+    Hdag = rec.guard('dagger', H.dagger)
+    if Hdag is not None and not close(D.mpo_window_dense(Hdag, 0, n), ref.conj().T):
+        rec('dagger:dense:W', 'dagger() is not the conjugate transpose')
+    if Hdag is not None and all_marks:
+        S = rec.guard('add', lambda: H + Hdag)
+        if S is not None:
+            if not close(D.mpo_window_dense(S, 0, n), ref + ref.conj().T):
+                rec('add:dense:W', 'H + H.dagger() differs from the dense sum')
+            for X, truth in ((S, True), (H, False)):
+                got = rec.guard('is_hermitian', X.is_hermitian)
+                if got is not None and bool(got) != truth:
+                    rec('is_hermitian:W:false-%s' % ('negative' if truth else 'positive'), 'is_hermitian()=%s for %s' % (got, 'H + H.dagger()' if truth else 'a generic H'))
+    kw = {} if fin else dict(understood_infinite=True, num_sites=n)
+    ov = rec.guard('overlap', H.overlap, H, **kw)
+    if ov is not None and not close(ov, fro2(ref), 1e-9):
+        rec('overlap:value:W', 'overlap(H, H)=%r, dense |H|^2=%r' % (ov, fro2(ref)))
+    if fin:
+        for name, psi in U.finite_states(chain, L, rng) if L > 1 else []:
+            v = D.mps_dense(psi, with_norm=False)
+            e = rec.guard('expectation_value', H.expectation_value, psi)
+            if e is not None and not close(e, np.vdot(v, ref @ v)):
+                rec('expectation_value:finite:W', '%s: got %r, dense %r' % (name, e, np.vdot(v, ref @ v)))
+            var = rec.guard('variance', H.variance, psi)
+            if var is not None and not close(var, np.vdot(v, ref @ (ref @ v)) - np.vdot(v, ref @ v) ** 2, 1e-9):
+                rec('variance:W', '%s: got %r' % (name, var))
+            w = ref @ D.mps_dense(psi)
+            if rec.guard('apply', H.apply, psi, dict(compression_method='SVD', trunc_params=dict(chi_max=100))) is not None and not close(D.mps_dense(psi), w, 1e-8):
+                rec('apply:SVD:no-truncation:not-exact', '%s: W-tensor MPO' % name)
+        basis = U.CHAINS[chain][2]
+        tl = rec.guard('to_TermList', H.to_TermList, basis)
+        if tl is not None and not close(termlist_dense(sites, tl), ref):
+            rec('to_TermList:dense:W', 'sum of the returned terms differs from the operator')
+        for name, args in (('sort_legcharges', ()), ('group_sites', (L,))):
+            Hx = make()
+            if rec.guard(name, getattr(Hx, name), *args) is None:
+                perm = D.group_perm(Hx.sites) if name == 'group_sites' else np.arange(len(ref))
+                if not close(D.mpo_dense(Hx)[np.ix_(perm, perm)], ref):
+                    rec(name + ':dense:W', 'operator changed by %s' % name)
+        if all_marks:  # (make_U_I needs IdL and IdR on the outer bonds as well, i.e. two states there)
+            errs = []
+            for t in (0.02j, 0.01j):
+                UU = rec.guard('make_U_II', H.make_U_II, t)
+                errs.append(np.nan if UU is None else float(np.abs(D.mpo_dense(UU) - scipy.linalg.expm(t * ref)).max()))
+            if UU is not None and (not np.isfinite(errs).all() or (errs[1] > 1e-11 and errs[0] / errs[1] < 3.0)):
+                rec('make_U_II:order:W', 'errors %r at t, t/2' % (errs,))
+    else:
+        for Lpsi in (2, 3):
+            psi = U.infinite_state(chain, Lpsi, rng)
+            e_ref = transfer_density(Ws, psi)
+            for name in ('expectation_value', 'expectation_value_TM', 'expectation_value_power'):
+                e = rec.guard(name, getattr(H, name), psi.copy())
+                if e is not None and not close(e, e_ref, 1e-7):
+                    rec('%s:infinite:W' % name, 'unit cells %d (MPO), %d (MPS): got %r, summed reference %r' % (L, Lpsi, e, e_ref))
     return rec
